@@ -43,7 +43,7 @@ let () =
     let n = int_of_z (size sh) in
     match order with
     | "rm" -> Some (iota n, calc_strides sh)
-    | "cm" -> Some (iota n, calc_strides_cm sh)
+    | "cm" | "cmf" | "cmg" | "cmn" -> Some (iota n, calc_strides_cm sh)   (* the same tensor, declared through other option orders / NewDense *)
     | _ -> None in
   let spec_index order sh co =
     match order with
